@@ -2,3 +2,7 @@ import Rbacx.Model.Engine
 import Rbacx.Proofs.PolicyLoop
 import Rbacx.Proofs.EvaluateSpec
 import Rbacx.Properties.C02
+import Rbacx.Model.Roles
+import Rbacx.Proofs.Roles
+import Rbacx.Spec.Roles
+import Rbacx.Properties.C18
